@@ -99,6 +99,9 @@ func runC11(c *core.Ctx) {
 		case 3:
 			_, _ = A.A.GetLocalCandidates()
 			_, _ = A.A.GetSelectedCandidatePair()
+			if c.T.Bias(1, 3, "reinstall-handlers") {
+				A.ReRegister() // the handler (re)installs the handlers from inside a callback
+			}
 			c.Fault("handler-reenters-api")
 		case 4:
 			closeCalled.Store(true)
